@@ -18,7 +18,7 @@ func init() {
 		Explanation: "Static gate / pairing / provenance rules over Agent.UpdatePeers and AddPeers: (after-update) every node mutator (RemoveTrustedPeer, DisconnectPeer, ConnectPeer, AddTrustedPeer), direct or through helpers, is reachable only through the success edge of the pool's Update call; " +
 			"(pairwise) each iteration over the invalid list calls RemoveTrustedPeer then DisconnectPeer with the same id, derived from that list's element; (invalid-list) without strict mode the list is the pool's InvalidPeers untouched, " +
 			"with strict mode it is rebuilt from the local peer list and a peer is kept out only on lookup-hit and equal remote host, the lookup being built from the pool's ActivePeers (id -> host, ports not compared); " +
-			"(shortfall) AddPeers is called exactly when NumHosts - len(ActivePeers) > 0, with that difference, which becomes PeerRequest.Num; Kind is the node's own kind iff it is not a full node; every returned peer's URI is dialled. Round 2: nothing mutates the node on the failure edge of an UpdatePeers call; only UpdatePeers/AddPeers regions and agent.Service methods may call node mutators; (fresh-reply) each RemotePool stub decodes into a fresh local; EnodeURI carries Network.RemoteAddress on every return. Round 4 (id-form): the peer argument of every parity_*ReservedPeer RPC is never the bare \"enode://\"+id form (Parity rejects a URL without an address part: the peer would stay trusted and connected).",
+			"(shortfall) AddPeers is called exactly when NumHosts - len(ActivePeers) > 0, with that difference, which becomes PeerRequest.Num; Kind is the node's own kind iff it is not a full node; every returned peer's URI is dialled. Round 2: nothing mutates the node on the failure edge of an UpdatePeers call; only UpdatePeers/AddPeers regions and agent.Service methods may call node mutators; (fresh-reply) each RemotePool stub decodes into a fresh local; EnodeURI carries Network.RemoteAddress on every return. Round 4 (id-form): the peer argument of every parity_*ReservedPeer RPC is never the bare \"enode://\"+id form (Parity rejects a URL without an address part: the peer would stay trusted and connected). Round 5: (adapter-errors) node adapters fail exactly when the RPC fails.",
 		NotDecided: []string{"not decided: multi-round convergence; behaviour of the node's own RPC; URI parsing of hostile peer descriptions (C15)"},
 	}
 }
@@ -629,6 +629,7 @@ func runC18(p *an.Prog, r *an.Run, tier string) {
 		}
 	}
 	checkNodeIDForms(p, r)
+	checkAdapterErrors(p, r)
 	r.Check(len(bad) == 0, "shortfall", an.FuncName(ap), ap.Pos(), "Peer{Num: shortfall, Kind: own kind iff light}; ConnectPeer(URI) for each returned peer", "%s", strings.Join(bad, "; "))
 }
 
@@ -673,6 +674,74 @@ func checkNodeIDForms(p *an.Prog, r *an.Run) {
 		}
 	}
 	r.Floor("parity-peer-rpcs", n, 2)
+}
+
+// checkAdapterErrors: the agent stops a round at the first node call that fails (AddPeers returns on the first
+// ConnectPeer error), so what counts as a failure is part of the contract between agent and adapters. All node
+// adapters agree: a peer-management call fails when the RPC fails, and the decoded reply is not inspected — Geth and
+// Pantheon answer admin_addPeer with false for a peer they already have, which is not a refusal. An adapter that turns
+// the reply's content into an error makes the agent skip every host listed after an already-known one.
+func checkAdapterErrors(p *an.Prog, r *an.Run) {
+	iface := p.Iface("ethnode", "EthNode")
+	if iface == nil {
+		r.Undec("adapter-errors", "ethnode.EthNode", token.NoPos, "interface not found")
+		return
+	}
+	n := 0
+	for _, d := range p.Implementations(iface) {
+		if d.Obj().Pkg() == nil || !strings.HasSuffix(d.Obj().Pkg().Path(), "/ethnode") {
+			continue
+		}
+		for _, name := range []string{"ConnectPeer", "DisconnectPeer", "AddTrustedPeer", "RemoveTrustedPeer"} {
+			m := p.MethodOf(d, name)
+			if m == nil || len(m.Blocks) == 0 || p.IsTestFunc(m) || strings.HasSuffix(p.File(m.Pos()), "_test.go") {
+				continue
+			}
+			var bad []string
+			// reply targets of the RPC calls made here
+			var targets []ssa.Value
+			nRPC := 0
+			for _, c := range an.Calls(m, false) {
+				if f := an.CallObj(c); f != nil && f.Name() == "CallContext" && len(c.Common().Args) >= 3 {
+					nRPC++
+					if root, _ := an.RootPath(underlyingConcrete(c.Common().Args[2])); root != nil {
+						targets = append(targets, root)
+					}
+				}
+			}
+			if nRPC == 0 {
+				continue // delegates to a sibling method
+			}
+			n++
+			an.AllInstrs(m, func(in ssa.Instruction) {
+				ret, ok := in.(*ssa.Return)
+				if !ok || len(ret.Results) == 0 {
+					return
+				}
+				last := ret.Results[len(ret.Results)-1]
+				if c, isC := last.(*ssa.Const); isC && c.IsNil() {
+					return
+				}
+				for _, ci := range an.ControllingIfs(ret.Block()) {
+					dc := p.Derives(0, ci.If.Cond)
+					for _, nd := range dc.Nodes {
+						u, ok := nd.(*ssa.UnOp)
+						if !ok || u.Op != token.MUL {
+							continue
+						}
+						root, _ := an.RootPath(u.X)
+						for _, t := range targets {
+							if sameObject(root, t) {
+								bad = append(bad, "the error returned at "+p.Pos(ret.Pos())+" is decided by the content of the node's reply ("+p.Pos(ci.If.Pos())+"), not by the failure of the call: the agent treats it as a failed round")
+							}
+						}
+					}
+				}
+			})
+			r.Check(len(bad) == 0, "adapter-errors", an.FuncName(m), m.Pos(), "fails exactly when the RPC fails", "%s", strings.Join(dedup(bad), "; "))
+		}
+	}
+	r.Floor("adapter-rpc-methods", n, 6)
 }
 
 // bareEnodeForm: v can be "enode://" + <non-constant> with no constant address part; returns a description or "".
